@@ -2,19 +2,16 @@
 import glob, json, os, random
 from harness import tlc, engine
 from harness.common import Machinery, REPO
-from checks.c04_driver import RECEIVERS
+from checks.c04_driver import RECEIVERS, VARIANT_RECEIVERS, ARG_PY
 from checks.c13 import judge_retry, tlc_run_retry
 
 MC_EMIT_CFG = "INIT McInit\nNEXT McNext\nCONSTRAINT McEmit\nINVARIANT McLaws\nINVARIANT McPrefix\nCHECK_DEADLOCK FALSE\n"
 MC_CFG = "INIT McInit\nNEXT McNext\nINVARIANT McLaws\nINVARIANT McPrefix\nCHECK_DEADLOCK FALSE\n"
 TOK_CFG = "INIT TokInit\nNEXT TokNext\nCONSTRAINT TokEmit\nINVARIANT TokLaw\nCHECK_DEADLOCK FALSE\n"
 FAM_CFG = "INIT FamInit\nNEXT FamNext\nCONSTRAINT FamEmit\nINVARIANT FamLaw\nCHECK_DEADLOCK FALSE\n"
-GRID_CFG = "INIT GridInit\nNEXT GridNext\nCONSTRAINT GridEmit\nCHECK_DEADLOCK FALSE\n"
+GRID_CFG = "INIT GridInit\nNEXT GridNext\nCONSTRAINT GridEmit\nINVARIANT GridLaw\nCHECK_DEADLOCK FALSE\n"
 JUDGE_CFG = "INIT JudgeInit\nNEXT JudgeNext\nCHECK_DEADLOCK FALSE\n"
 DRIVER = "checks.c04_driver:driver"
-ALLOCATING = ["repeat", "Array", "ArrayBuffer", "Int8Array", "Uint8Array", "Uint8ClampedArray", "Int16Array", "Uint16Array",
-              "Int32Array", "Uint32Array", "Float32Array", "Float64Array", "padStart", "padEnd", "fill", "from", "constructor"]
-HUGE = ["p31", "p53", "e21"]
 
 KEYWORDS = ["var", "function", "return", "if", "else", "while", "do", "for", "in", "of", "break", "continue", "switch", "case",
             "default", "try", "catch", "finally", "throw", "new", "delete", "typeof", "instanceof", "this", "true", "false",
@@ -180,18 +177,31 @@ def run(rep):
     process(rep, rng, [{"kind": "fam", "fam": f} for f in fams], stats)
     # ---- B. the built-in grid: argument vectors enumerated by TLC, functions discovered at run time -----------------
     gres = tlc_job("grid")
-    rep.add_tlc("C04.ArgVectors", gres)
-    vecs = sorted({tuple(r["cls"]) for r in gres.records if r.get("kind") == "vec"}, key=lambda v: (len(v), v))
-    if len(vecs) < 100:
-        raise Machinery("only %d argument vectors" % len(vecs))
-    rep.spaces.append({"space": "argument vectors of length <= 2 (TLC-enumerated)", "cases": len(vecs), "complete": True})
+    rep.add_tlc("C04.ArgVectors + GridLaw", gres)
+    vtag = {tuple(r["cls"]): r["pf"] for r in gres.records if r.get("kind") == "vec"}
+    vecs = sorted(vtag, key=lambda v: (len(v), v))
+    huge = sorted({r["pf"] for r in gres.records if r.get("kind") == "huge"})
+    allocating = sorted({r["pf"] for r in gres.records if r.get("kind") == "allocating"})
+    short = [v for v in vecs if vtag[v] == "short"]
+    classes = sorted({a for v in vecs for a in v})
+    if len(vecs) < 500 or len(short) < 50 or len(huge) < 3 or len(allocating) < 10 or not any(len(v) == 3 for v in vecs):
+        raise Machinery("argument grid incomplete: %d vectors, %d short, %d huge classes, %d allocating names" % (len(vecs), len(short), len(huge), len(allocating)))
+    rep.spaces.append({"space": "argument vectors of length <= 3 over %d argument classes (TLC-enumerated; %d of length 3; %d short vectors for "
+                                "the receiver variants)" % (len(classes), sum(1 for v in vecs if len(v) == 3), len(short)),
+                       "cases": len(vecs), "complete": True})
+    rep.notes["argument_classes"] = classes
+    py_classes = set(ARG_PY)
     ecases = []
-    nslice = 4
+    nslice = 12
     for recv in RECEIVERS:
-        for k in range(nslice):
+        mine = short if (quick and recv in VARIANT_RECEIVERS) else vecs
+        ns = nslice if len(mine) > 200 else 2
+        for k in range(ns):
             for intrep in (("lit",) if quick else ("lit", "float")):
-                ecases.append({"kind": "grid", "recv": recv, "vecs": [list(v) for v in vecs[k::nslice]], "allocating": ALLOCATING,
-                               "huge": HUGE, "intrep": intrep})
+                # the second representation only differs for the vectors that contain a number
+                vs = [list(v) for v in mine[k::ns] if intrep == "lit" or any(a in py_classes for a in v)]
+                ecases.append({"kind": "grid", "recv": recv, "vecs": vs, "allocating": allocating, "huge": huge, "intrep": intrep})
+    stats["nrecv"] = len(RECEIVERS)
     process(rep, rng, ecases, stats)
     # ---- C. corpus prefixes, mutations, token soup (C->S) -------------------------------------------------------------
     files = corpus()
@@ -232,6 +242,10 @@ def run(rep):
     nfn = sum(len(v) for v in discovered.values())
     if nfn < 150 or stats["ncalls"] < 10000:
         raise Machinery("built-in discovery found only %d functions / %d calls" % (nfn, stats["ncalls"]))
+    missing = sorted(r for r in RECEIVERS if r not in discovered)
+    if missing:
+        raise Machinery("no discovery answer for the receiver kinds %r" % missing)
+    rep.notes["receivers_without_functions"] = sorted(r for r in RECEIVERS if not discovered[r])
     rep.spaces.append({"space": "built-in grid: %d function-valued properties discovered on %d receiver kinds x argument vectors"
                                 % (nfn, len(discovered)), "cases": stats["ncalls"], "complete": True})
     rep.notes["discovered_functions"] = {k: sorted(v) for k, v in sorted(discovered.items())}
@@ -250,6 +264,38 @@ def run(rep):
                         "are not made with arguments >= 2^31 (CallSupported)"]
 
 
+def reobserve_hangs(rep, results, byid, stats):
+    """A watchdog expiry is an observation of the wall clock of a shared machine.  Every case that ended in 'hang' is observed once
+    more, alone, in a second engine round (a real hang hangs again and is judged as a hang)."""
+    again, slot = [], {}
+    for idx, r in enumerate(results):
+        if r.get("out", {}).get("o") != "hang" and r.get("lex", {}).get("o") != "hang":
+            continue
+        c = byid[r["id"]]
+        nid = len(again)
+        if c["kind"] == "grid":
+            if "fname" not in r:
+                continue                             # a lost slice: Machinery in process()
+            again.append(dict(c, id=nid, vecs=[r["args"]], only=r["fname"], form=r["form"]))
+        else:
+            again.append(dict(c, id=nid))
+        slot[nid] = idx
+    if not again:
+        return results
+    if len(again) > 64:                              # many hangs are not an accident of the scheduler: the first 64 are observed again
+        again = again[:64]
+        slot = {k: v for k, v in slot.items() if k < 64}
+    stats["reobserved"] = stats.get("reobserved", 0) + len(again)
+    rep.notes["reobserved_after_watchdog"] = stats["reobserved"]
+    for r2 in engine.run_cases(rep.pid, again, driver=DRIVER, timeout=3000, tag="eng_again"):
+        if "discovered" in r2:
+            continue
+        idx = slot[r2["id"]]
+        r2["id"] = results[idx]["id"]
+        results[idx] = r2
+    return results
+
+
 def process(rep, rng, ecases, stats, flush=False):
     """engine -> judge -> verdicts for one chunk of cases (the quick tier collects all chunks and runs them once)"""
     if rep.tier == "quick" and not flush:
@@ -265,6 +311,7 @@ def process(rep, rng, ecases, stats, flush=False):
     order = list(ecases)
     rng.shuffle(order)                               # spread the slow cases over the children
     results = engine.run_cases(rep.pid, order, driver=DRIVER, timeout=3000)
+    results = reobserve_hangs(rep, results, byid, stats)
     recs, srcs = [], {}
     for r in results:
         c = byid[r["id"]]
@@ -300,6 +347,8 @@ def process(rep, rng, ecases, stats, flush=False):
             srcs[i] = c["what"] + ": " + repr(c["src"])[:200]
         elif "discovered" in r:
             stats["discovered"].setdefault(r["recv"], set()).update(r["discovered"])
+        elif "fname" not in r:                       # the whole slice was abandoned by the child's watchdog: its calls are missing
+            raise Machinery("grid slice of receiver %s lost (%r)" % (c["recv"], r.get("out")))
         elif "fname" in r:
             i = len(recs)
             recs.append(rec(i, "call", out=r["out"], fname=r["fname"], args=r["args"]))
